@@ -4,7 +4,7 @@
 //! The core idea is that we install a custom panic hook (`init_panic_hook`) that runs when a thread
 //! panics. That hook tries to print information about the failing schedule by calling
 //! `persist_failure`.
-use std::cell::Cell;
+use std::cell::{Cell, RefCell};
 use std::fs::OpenOptions;
 use std::io::{ErrorKind, Write};
 use std::panic;
@@ -15,15 +15,23 @@ use crate::config::{Config, FailurePersistence};
 use crate::runtime::execution::{CurrentSchedule, ExecutionState};
 use crate::scheduler::serialization::serialize_schedule;
 
-// When we last persisted a schedule. Used so that we don't persist the same schedule twice.
 thread_local! {
-    static SCHEDULE_PERSISTED_AT: Cell<usize> = const { Cell::new(0) };
+    // The length of the schedule we last persisted during the current execution, if any. Used so that
+    // we don't persist the same schedule twice (once from the panic hook and once from
+    // `Execution::run`). Reset at the start of every execution, so that a failure of a later
+    // execution on this thread is never mistaken for an already persisted one.
+    static SCHEDULE_PERSISTED_AT: Cell<Option<usize>> = const { Cell::new(None) };
+
+    // The config of the execution that is running (or last ran) on this thread. The panic hook is
+    // installed only once per process, so it cannot capture the config of "its" execution; it reads
+    // this instead.
+    static CURRENT_CONFIG: RefCell<Option<Config>> = const { RefCell::new(None) };
 }
 
 /// Persist (to stderr or to file) a message describing how to replay a failing schedule.
 pub fn persist_failure(config: &Config) {
     // Don't serialize the same schedule twice.
-    if SCHEDULE_PERSISTED_AT.get() == CurrentSchedule::len() {
+    if SCHEDULE_PERSISTED_AT.get() == Some(CurrentSchedule::len()) {
         return;
     }
 
@@ -51,7 +59,7 @@ pub fn persist_failure(config: &Config) {
         }
     }
 
-    SCHEDULE_PERSISTED_AT.set(CurrentSchedule::len());
+    SCHEDULE_PERSISTED_AT.set(Some(CurrentSchedule::len()));
 }
 
 /// Persist the given serialized schedule to a file and return the new file's path. The file will be
@@ -83,12 +91,18 @@ fn persist_failure_to_file(serialized_schedule: &str, destination: Option<&PathB
     path.canonicalize()
 }
 
-/// Set up a panic hook that will try to print the current schedule to stderr so that the failure
-/// can be replayed. Returns a guard that will disarm the panic hook when dropped.
+/// Set up a panic hook that will try to persist the current schedule (as directed by the config of
+/// the execution running on the panicking thread) so that the failure can be replayed. Called at
+/// the start of every execution; the hook itself is installed only once per process.
 ///
 /// See the module documentation for more details on how this method fits into the failure reporting
 /// story.
 pub fn init_panic_hook(config: Config) {
+    // A new execution is starting on this thread: nothing has been persisted for it yet, and
+    // failures should be persisted according to its config.
+    SCHEDULE_PERSISTED_AT.set(None);
+    CURRENT_CONFIG.with(|c| *c.borrow_mut() = Some(config));
+
     static INIT: Once = Once::new();
     INIT.call_once(|| {
         let original_hook = panic::take_hook();
@@ -96,7 +110,15 @@ pub fn init_panic_hook(config: Config) {
             eprintln!("Task failed, serializing schedule");
             let task_name = ExecutionState::failing_task();
             eprintln!("test panicked in task '{task_name}'");
-            persist_failure(&config);
+            // The hook must not panic, hence `try_with`/`try_borrow`. There is no config if no
+            // execution ever ran on this thread, and then there is no schedule to persist either.
+            let config = CURRENT_CONFIG
+                .try_with(|c| c.try_borrow().ok().and_then(|c| c.clone()))
+                .ok()
+                .flatten();
+            if let Some(config) = config {
+                persist_failure(&config);
+            }
             original_hook(panic_info);
         }));
     });
